@@ -14,3 +14,11 @@ mod migrations;
 #[cfg(test)]
 #[cfg(not(target_arch = "wasm32"))]
 mod tests;
+
+/// Verification hooks (off unless built with `--cfg wwcore_verif`): re-exports of the
+/// private pure-math modules so an external harness can drive them directly.
+#[cfg(wwcore_verif)]
+pub mod verif_hooks {
+    pub use crate::error::ContractError;
+    pub use crate::weight::*;
+}
